@@ -721,7 +721,7 @@ MessageReceivedFromGateway(const MessageRef & msgRef, void * userData)
                }
                else if ((fn == PR_NAME_KEYS)||(fn == PR_NAME_FILTERS))
                {
-                  (void) msg.MoveName(fn, _defaultMessageRouteMessage);
+                  (void) msg.CopyName(fn, _defaultMessageRouteMessage);  // copy, not move:  the field also has to reach (_parameters), below, or the default route is never consulted
                   updateDefaultMessageRoute = true;
                }
                else if (fn == PR_NAME_SUBSCRIBE_QUIETLY)
